@@ -248,6 +248,7 @@ def _fmt_prefix(s: str) -> str:
 def run_prefix(ctx: Ctx) -> RuleResult:
     repo = ctx.repo
     res = RuleResult('R-PREFIX-PROTOCOL', 'helper names carry the prefix their consumer tests; users cannot define names with it')
+    res.default_props = ['C03', 'C09', 'C17']
     # EBNF helpers
     nr = repo.func('lark.load_grammar:EBNF_to_BNF._name_rule')
     from ..exprs import str_template as _st
@@ -317,6 +318,32 @@ def run_prefix(ctx: Ctx) -> RuleResult:
     res.ob('%s %s' % (rv.loc(), rv.qual), 'the two CNF prefixes %s do not shadow each other' % cons, ok)
     if not ok:
         res.finding(rv, rv.node, 'revert_cnf prefixes %s are ambiguous' % cons, construct='prefix:cyk-ambiguous')
+    # anonymous string literals: a name *proposed* for one ("=" -> EQUAL, "if" -> IF) is dropped when a terminal of that name exists
+    # (otherwise the literal silently becomes the user's terminal, with the user's pattern)
+    pa = repo.func('lark.load_grammar:PrepareAnonTerminals.pattern')
+    psn = pa.self_name() or 'self'
+    from ..exprs import runs_only_if, bool_relation
+    uses = [c for c in pa.body_nodes() if isinstance(c, ast.Call) and norm(c.func) == 'Terminal' and c.args and isinstance(c.args[0], ast.Name)]
+    if len(uses) != 1:
+        raise AnalysisError('R-PREFIX-PROTOCOL: PrepareAnonTerminals.pattern: cannot find the Terminal(<name>, ...) it returns')
+    nm = uses[0].args[0].id
+    proposals = [a for a in pa.body_nodes() if isinstance(a, ast.Assign) and len(a.targets) == 1 and norm(a.targets[0]) == nm
+                 and not isinstance(a.value, ast.Constant) and 'term_reverse' not in norm(a.value) and '__ANON' not in norm(a.value)]
+    resets = [i_ for i_ in pa.body_nodes() if isinstance(i_, ast.If) and bool_relation(i_.test, ast.parse('%s in %s.term_set' % (nm, psn), mode='eval').body) == 'same'
+              and any(isinstance(a, ast.Assign) and norm(a.targets[0]) == nm and norm(a.value) == 'None' for a in i_.body)]
+    bad_p = []
+    for a in proposals:
+        direct = runs_only_if(a, ast.parse('%s not in %s.term_set' % (norm(a.value), psn), mode='eval').body)
+        later = any(r_.lineno > a.lineno and any(parent(r_) is anc or parent(r_) is pa.node for anc in ancestors(a)) for r_ in resets)
+        if not (direct or later):
+            bad_p.append(a)
+    okp = bool(proposals) and not bad_p
+    res.ob('%s %s' % (pa.loc(), pa.qual), 'a name proposed for an anonymous literal is used only if no terminal of that name exists (%d proposals)' % len(proposals), okp,
+           props=['C01', 'C03', 'C07'])
+    if not okp:
+        res.finding(pa, bad_p[0] if bad_p else pa.node, 'a name proposed for an anonymous string literal (%s) is kept although a terminal of that name may already exist: '
+                    'the literal is then replaced by that terminal and matches *its* pattern ("=" matches "==" when the grammar defines EQUAL: "==")'
+                    % (norm(bad_p[0].value) if bad_p else 'no proposal found'), construct='anon-name-taken', props=['C01', 'C03', 'C07'])
     return res
 
 
